@@ -59,16 +59,18 @@ structure Version (H Blocks : Type) where
 
 inductive Field
   | none | version | seqnum | rootHash | salt | kN | segsize | datalen
-  | pubkey | signature | shareHashChain | blockHashTree | shareData | encPrivkey
+  | pubkey | signature | shareData | encPrivkey
   deriving DecidableEq, Repr
 
 /-- is a single share with exactly this field altered still accepted by a read through the read-cap?
-`warm` = the node already holds the public key. -/
+`warm` = the node already holds the public key.  (The two hash-chain fields are not in the table:
+which of their bytes a read consults depends on the tree shapes; they are covered by `accept` and by
+the harness monitor instead.) -/
 def fieldDecision (warm : Bool) : Field → Bool
   | .none => true
   | .encPrivkey => true          -- not examined on read
   | .pubkey => warm              -- only examined when no key is known yet
-  | _ => false                   -- signed prefix, signature, hash chains, data: rejected
+  | _ => false                   -- signed prefix, signature, share data: rejected
 
 /-! ### who can make a version: symbolic terms and adversary knowledge (Dolev–Yao) -/
 
